@@ -144,6 +144,16 @@ Theorem C15_one_file_sections_exact : forall le is64 img shdrs nd nn nv defs nee
 Proof. exact one_file_sections_exact. Qed.
 Print Assumptions C15_one_file_sections_exact.
 
+(* the layout predicates are monotone in the image: a section certified on a prefix of a file is certified on
+   the whole file, whatever follows (e.g. a section header table of 0xff00 or more entries at the end of it) *)
+Theorem C15_section_wf_any_tail : forall le is64 img t shdrs,
+  (forall n defs, verdef_section_wf le img shdrs n defs = true -> verdef_section_wf le (img ++ t) shdrs n defs = true)
+  /\ (forall n needs, verneed_section_wf le img shdrs n needs = true -> verneed_section_wf le (img ++ t) shdrs n needs = true)
+  /\ (forall n entries, versym_section_wf le is64 img shdrs n entries = true ->
+                        versym_section_wf le is64 (img ++ t) shdrs n entries = true).
+Proof. exact section_wf_any_tail. Qed.
+Print Assumptions C15_section_wf_any_tail.
+
 (* ---- resolving an index: the first entry in link order that carries it, else nothing ----
    (same domain: non-zero next links on all non-last entries and auxiliaries) *)
 Theorem C15_verdef_get_version_exact : forall le is64 img shdrs n defs idx,
